@@ -309,6 +309,8 @@ func (c *Ctx) applyTargets(fn *ssa.Function, list ssa.Value, r *Report, visited 
 				construct = shortFn(fn) + " apply-loop " + strings.Join(names, ",")
 				if msg := c.loopSkipsOnlyIgnored(fn, call, hdr, ignored); msg != "" {
 					r.Bad("C19/O4", construct, c.Pos(call.Pos()), msg)
+				} else if skip := successAvoidsLoop(fn, hdr); skip != nil {
+					r.Bad("C19/O4", construct, c.Pos(call.Pos()), fmt.Sprintf("the constructor can return successfully (%s) without having run this apply loop: on that path -- e.g. when the object was supplied by the user instead of built here -- every option aimed at the %s is silently dropped", c.Pos(skip.Pos()), strings.Join(names, "/")))
 				} else {
 					r.OK("C19/O4", construct, c.Pos(call.Pos()), "range loop over the full list; leaves only on a non-ignored error")
 				}
@@ -914,4 +916,35 @@ func keysOfPos(m map[string]token.Pos) []string {
 	}
 	sort.Strings(ks)
 	return ks
+}
+
+// successAvoidsLoop: a return with a nil error that is reachable from the function entry without entering the loop
+// headed by hdr (nil when there is none).
+func successAvoidsLoop(fn *ssa.Function, hdr *ssa.BasicBlock) ssa.Instruction {
+	rr := reachFrom(fn, nil, func(in ssa.Instruction) bool { return in.Block() == hdr }, nil)
+	var found ssa.Instruction
+	for _, b := range fn.Blocks {
+		for _, in := range b.Instrs {
+			ret, ok := in.(*ssa.Return)
+			if !ok || !rr.visited[in] || len(ret.Results) == 0 || (len(b.Preds) == 0 && b.Index != 0) {
+				continue
+			}
+			last := ret.Results[len(ret.Results)-1]
+			if !isErrorType(last.Type()) {
+				continue
+			}
+			v := last
+			if u, ok := v.(*ssa.UnOp); ok {
+				if a, ok := u.X.(*ssa.Alloc); ok {
+					if sv := lastStoreBefore(a, u); sv != nil {
+						v = sv
+					}
+				}
+			}
+			if isNilConst(v) {
+				found = in
+			}
+		}
+	}
+	return found
 }
